@@ -141,8 +141,9 @@ def gen_cases(ctx):
         amps = {jb.get("amp") for jb in jobs if jb["kind"] == "find_link_iter"}
         if i % 16 == 0:
             case["fresh"] = "all"
-        elif len(amps) >= 2 and i % 2 == 0:
-            case["fresh"] = "find_link"
+        elif any(jb["kind"] == "find_link_iter" and jb.get("amp", 200) <= 60 and jb.get("withhold_seed") is not None
+                 for jb in jobs):
+            case["fresh"] = "dim"        # the dim movies are where stale grey-level statistics show
         yield case
     if ctx.thorough:
         # every interleaving of 3 jobs with <= 3 steps each, for several base movie triples
@@ -354,7 +355,9 @@ def run_case(ctx, inp):
             else:
                 res.stat("partition_equal")
         # history-free reference: the same job alone in a FRESH interpreter (sampled cases)
-        if (inp.get("fresh") == "all" or (inp.get("fresh") and isfl)) and not res.viol:
+        if (inp.get("fresh") == "all" or
+                (inp.get("fresh") and isfl and jb.get("amp", 200) <= 60 and jb.get("withhold_seed") is not None)) \
+                and not res.viol:
             fr = fresh_solo(jb)
             if fr is not None and not fr["raised"] and len(fr["levels"]) >= len(out[j]):
                 ref = [(p, l) for p, l in fr["levels"]][:len(out[j])]
